@@ -15,7 +15,7 @@ use std::sync::atomic::{AtomicBool, Ordering};
 use tokio::net::{TcpListener, TcpStream};
 
 const RULE: &str = "one case = one cell of the full matrix {server certificate issued by the client's trusted CA / another CA / self-signed} x {requested name matches / differs} x {skip-verify on/off} x {client certificate: none / under the server's client CA / under another CA} x {server client-CA configured / not} (72 cells, both ECDSA P-256 and P-384 material in thorough), \
-each executed as a real handshake over loopback through run_listener + tls_connect followed by GET /health; plus a CertificateRequest probe with a recording client-certificate resolver, and identity reload cycles with an established connection kept open. \
+each executed as a real handshake over loopback through run_listener + tls_connect followed by GET /health; plus a CertificateRequest probe with a recording client-certificate resolver, identity reload cycles with an established connection kept open, and the operator's path (server_main with certificate files, files replaced, SIGUSR1, three or more times in a row, with and without a client CA) after each of which the client-certificate column and the CertificateRequest probe are repeated. \
 Oracle: the reference truth table of the statement. Exhaustive over the matrix. Non-trivial = every cell; distinct = distinct (cell, key type)";
 
 struct Pki {
@@ -247,6 +247,108 @@ async fn reload(st: &mut Stats, pki: &Pki, cycles: usize) {
     }
 }
 
+/// The operator's path: `server_main` with --tls-cert/--tls-key(/--tls-ca), the files replaced on disk and SIGUSR1 sent to the process,
+/// several times in a row. After every reload the whole client-certificate column is re-checked: the identity changes, the policy does not.
+async fn reload_by_signal(st: &mut Stats, pki: &Pki, cycles: usize, client_ca: bool) {
+    use rusty_penguin_lib::arg::ServerArgs;
+    let tag = if client_ca { "mtls" } else { "plain" };
+    let (live_pem, live_key) = (pki.p(&format!("live-{tag}.pem")), pki.p(&format!("live-{tag}.key")));
+    let install = |which: &str| {
+        std::fs::copy(pki.p(&format!("srv-{which}.pem")), &live_pem).expect("copy pem");
+        std::fs::copy(pki.p(&format!("srv-{which}.key")), &live_key).expect("copy key");
+    };
+    install("trusted");
+    let port = net::free_tcp_port(false);
+    let args: &'static ServerArgs = Box::leak(Box::new(ServerArgs {
+        host: vec!["127.0.0.1".to_string()],
+        port: vec![port],
+        not_found_resp: "404".to_string(),
+        tls_cert: Some(live_pem.clone()),
+        tls_key: Some(live_key.clone()),
+        tls_ca: if client_ca { Some(pki.p("cax.pem")) } else { None },
+        ..Default::default()
+    }));
+    let server = tokio::spawn(rusty_penguin_lib::server::server_main(args));
+    let addr = SocketAddr::from(([127, 0, 0, 1], port));
+    let mut up = false;
+    for _ in 0..200 {
+        if TcpStream::connect(addr).await.is_ok() {
+            up = true;
+            break;
+        }
+        tokio::time::sleep(std::time::Duration::from_millis(25)).await;
+    }
+    if !up || server.is_finished() {
+        st.inconclusive.push(format!("c17 signal reload: server_main did not come up ({tag})"));
+        return;
+    }
+    let (ca1, ca2) = (pki.p("ca1.pem"), pki.p("ca2.pem"));
+    let good = (pki.p("cli-trusted.pem"), pki.p("cli-trusted.key"));
+    let bad = (pki.p("cli-other.pem"), pki.p("cli-other.key"));
+    // the policy column, checked before the first and after every reload
+    async fn column(st: &mut Stats, addr: SocketAddr, trust: &str, client_ca: bool, good: &(String, String), bad: &(String, String), when: &str) {
+        let replay = json!({"kind": "c17-signal-reload", "client_ca": client_ca, "when": when});
+        let with_good = reaches(addr, "localhost", Some(&good.0), Some(&good.1), Some(trust), false).await;
+        let with_bad = reaches(addr, "localhost", Some(&bad.0), Some(&bad.1), Some(trust), false).await;
+        let with_none = reaches(addr, "localhost", None, None, Some(trust), false).await;
+        let asked = asks_for_client_cert(addr).await;
+        st.target("policy_columns_after_signal_reload", 1);
+        st.nontrivial(mix(crate::util::fnv(when.as_bytes()), u64::from(client_ca)));
+        if with_good != Ok(true) {
+            st.violation(Violation { signature: format!("signal-reload|authorised-client-refused|client_ca={client_ca}"), detail: format!("{when}: a client entitled to connect was refused ({with_good:?})"), replay: replay.clone() });
+        }
+        for (who, got) in [("a certificate under another CA", &with_bad), ("no certificate", &with_none)] {
+            match got {
+                Ok(g) if *g == !client_ca => {}
+                Ok(g) => st.violation(Violation { signature: format!("signal-reload|client-ca-policy-changed|client_ca={client_ca}|accepted={g}"), detail: format!("{when}: server started {} a client CA; a client presenting {who} was {}", if client_ca { "with" } else { "without" }, if *g { "served" } else { "refused" }), replay: replay.clone() }),
+                Err(e) => st.inconclusive.push(format!("c17 signal reload column: {e}")),
+            }
+        }
+        match asked {
+            Ok(a) if a == client_ca => {}
+            Ok(a) => st.violation(Violation { signature: format!("signal-reload|certificate-request|configured={client_ca}|asked={a}"), detail: format!("{when}: server with client CA configured = {client_ca}: a CertificateRequest was {}sent", if a { "" } else { "not " }), replay }),
+            Err(e) => st.inconclusive.push(format!("c17 signal reload probe: {e}")),
+        }
+    }
+    column(st, addr, &ca1, client_ca, &good, &bad, &format!("{tag}: before any reload")).await;
+    for cycle in 0..cycles {
+        st.evaluations += 1;
+        let (cur_ca, other, other_ca) = if cycle % 2 == 0 { (&ca1, "other", &ca2) } else { (&ca2, "trusted", &ca1) };
+        // a connection established under the current identity stays usable
+        let tcp = TcpStream::connect(addr).await.expect("tcp");
+        let est = tls_connect(tcp, "localhost", Some(&good.0), Some(&good.1), Some(cur_ca.as_str()), false).await.ok();
+        install(other);
+        let ok = std::process::Command::new("kill").arg("-USR1").arg(std::process::id().to_string()).status().map(|s| s.success()).unwrap_or(false);
+        if !ok {
+            st.inconclusive.push("c17 signal reload: cannot send SIGUSR1".into());
+            return;
+        }
+        // bounded wait for the new identity to show
+        let mut effective = false;
+        for _ in 0..200 {
+            if reaches(addr, "localhost", Some(&good.0), Some(&good.1), Some(other_ca.as_str()), false).await == Ok(true) {
+                effective = true;
+                break;
+            }
+            tokio::time::sleep(std::time::Duration::from_millis(25)).await;
+        }
+        let when = format!("{tag}: after SIGUSR1 reload #{}", cycle + 1);
+        if !effective {
+            st.violation(Violation { signature: "signal-reload|not-effective".into(), detail: format!("{when}: 5 s after the signal, handshakes still do not see the replaced identity"), replay: json!({"kind": "c17-signal-reload", "cycle": cycle, "client_ca": client_ca}) });
+            continue;
+        }
+        st.target("signal_reload_cycles", 1);
+        column(st, addr, other_ca, client_ca, &good, &bad, &when).await;
+        if let Some(tls) = est {
+            match net::raw_http(tls, REQ, false).await {
+                Ok((r, _, _)) if r.status == 200 => {}
+                other_res => st.violation(Violation { signature: "signal-reload|disturbed-connection".into(), detail: format!("{when}: the connection established before the reload failed afterwards: {:?}", other_res.map(|x| x.0.status)), replay: json!({"kind": "c17-signal-reload", "cycle": cycle}) }),
+            }
+        }
+    }
+    server.abort();
+}
+
 pub fn run(p: &Params) -> (Stats, &'static str) {
     let mut st = Stats::new();
     st.engine("E2E", 1);
@@ -260,6 +362,9 @@ pub fn run(p: &Params) -> (Stats, &'static str) {
         let pki = make_pki(alg);
         rt.block_on(matrix(&mut st, &pki, name));
         rt.block_on(reload(&mut st, &pki, if p.tier_thorough { 6 } else { 2 }));
+        for client_ca in [true, false] {
+            rt.block_on(reload_by_signal(&mut st, &pki, if p.tier_thorough { 6 } else { 3 }, client_ca));
+        }
     }
     st.exhaustive.push("all 72 cells of the TLS configuration matrix".into());
     st.sample(json!({"cell": "server_cert=trusted name_matches=true skip_verify=false client_cert=other server_client_ca=true", "expect": "rejected (client certificate not issued under the server's client CA)"}));
